@@ -180,10 +180,12 @@ impl<T> RawAtomic<T> {
     }
 
     pub fn load<'g>(&self, order: Ordering, _: &'g Guard) -> RawShared<'g, T> {
+        vpoint!(Raw, self as *const Self);
         RawShared::from(self.inner.load(order))
     }
 
     pub fn store(&self, val: RawShared<'_, T>, order: Ordering) {
+        vpoint!(Raw, self as *const Self);
         self.inner.store(val.inner, order);
     }
 
@@ -195,6 +197,7 @@ impl<T> RawAtomic<T> {
         failure: Ordering,
         _: &'g Guard,
     ) -> Result<RawShared<'g, T>, RawShared<'g, T>> {
+        vpoint!(Raw, self as *const Self);
         self.inner
             .compare_exchange(current.inner, new.inner, success, failure)
             .map(RawShared::from)
@@ -209,6 +212,7 @@ impl<T> RawAtomic<T> {
         failure: Ordering,
         _: &'g Guard,
     ) -> Result<RawShared<'g, T>, RawShared<'g, T>> {
+        vpoint!(Raw, self as *const Self);
         self.inner
             .compare_exchange_weak(current.inner, new.inner, success, failure)
             .map(RawShared::from)
@@ -216,6 +220,7 @@ impl<T> RawAtomic<T> {
     }
 
     pub fn fetch_or<'g>(&self, tag: usize, order: Ordering, _: &'g Guard) -> RawShared<'g, T> {
+        vpoint!(Raw, self as *const Self);
         // HACK: The size and alignment of `Atomic<TaggedCnt<T>>` will be same with `AtomicUsize`.
         // The equality of the sizes is checked by `const_assert!`.
         let inner = unsafe { &*(&self.inner as *const _ as *const AtomicUsize) };
